@@ -256,7 +256,7 @@ def run(prog: Program, L: Ledger) -> None:
     verlet_constrained(prog, L, "V")
 
     # ------------------------------------------------------------------ MB
-    mb = prog.func(f"{prog.package}.utils.dynamics", "maxwell_boltzmann_distribution")
+    mb = flat(prog, prog.func(f"{prog.package}.utils.dynamics", "maxwell_boltzmann_distribution"), None, keep=())
     draws = [c for c in walk_no_nested(mb.node) if isinstance(c, ast.Call) and isinstance(c.func, ast.Attribute) and c.func.attr in ("standard_normal", "normal", "randn")]
     gen_ok = len(draws) == 1 and norm(draws[0].func.value) == "context.rng"
     L.check(gen_ok, "MB", "maxwell_boltzmann_distribution:generator", mb.where,
@@ -269,6 +269,8 @@ def run(prog: Program, L: Ledger) -> None:
             "context.rng.standard_normal((len(atoms), 3))": ("G", {"real": True}),
             "context.rng.standard_normal(size=(len(context.atoms), 3))": ("G", {"real": True}),
             "atoms.get_kinetic_energy()": ("Ekin", {"positive": True}), "atoms.get_number_of_degrees_of_freedom()": ("ndof", {"positive": True}),
+            "context.atoms.get_kinetic_energy()": ("Ekin", {"positive": True}), "context.atoms.get_number_of_degrees_of_freedom()": ("ndof", {"positive": True}),
+            "len(atoms) * 3": ("ndof", {"positive": True}), "3 * len(atoms)": ("ndof", {"positive": True}),
         })
         vocab.bind("forced", sp.true if forced else sp.false)
         st = AtomsState(sp.Symbol("x"), sp.Symbol("p0"))
